@@ -56,7 +56,7 @@ theorem applyCmd_noVote {c : Config} {s : NodeState} {now : Nat} {e : Entry} {s'
   · split at h
     · cases h
     · cases h; exact noVote_single rfl
-  · cases h; exact changeCluster_noVote s now _ _
+  · cases h; exact noVote_nil
   · cases h; exact noVote_single rfl
 
 theorem callbacksFor_noVote (e : Entry) (res : Res) (subs : List (Nat × Nat)) : noVote (callbacksFor e res subs) := by
